@@ -476,7 +476,28 @@ def history_steps(sym, other, natural, k1, k2):
         ("product", ["mul", 4, one(k2)], lambda L: L.append(L[4] * k2)),
         ("add-after-sum", ["add", 4, other, one(1)], lambda L: L[4].add(other, 1)),
         ("reparse", ["new", [[sym, one(2)], [other, one(1)]]], lambda L: L.append(Substance(f2, natural=natural))),
+        # chained sums with overlapping and disjoint species, product of a sum
+        ("chained-sum", ["plus", 4, 2], lambda L: L.append(L[4] + L[2])),
+        ("chained-sum", ["plus", 7, 3], lambda L: L.append(L[7] + L[3])),
+        ("product-of-sum", ["mul", 8, one(k1 + 0.5)], lambda L: L.append(L[8] * (k1 + 0.5))),
+        ("add-after-chain", ["add", 8, "Xe", one(k2)], lambda L: L[8].add("Xe", k2)),
     ]
+
+
+def element_ops(ctx, sym, natural, k1, k2):
+    """Element + Element (same species) and Element * k act on the count"""
+    from scinumtools.materials import Element
+    try:
+        e1, e2 = Element(sym, k1, natural=natural), Element(sym, k2, natural=natural)
+        got = [float((e1 + e2).proportion), float((e1 * 3).proportion), float(e1.proportion), float(e2.proportion)]
+    except Exception as e:  # noqa
+        ctx.violation("history:element-error", "Element(%r,%r) + Element(%r,%r) raises %r" % (sym, k1, sym, k2, e),
+                      {"stream": "element-ops", "sym": sym, "natural": natural})
+        return
+    want = [float(k1 + k2), float(3 * k1), float(k1), float(k2)]
+    if any(not close(a, b) for a, b in zip(got, want)):
+        ctx.violation("history:element-ops", "Element(%r,%r)+Element(%r,%r), *3 and the operands have counts %s, expected %s" %
+                      (sym, k1, sym, k2, got, want), {"stream": "element-ops", "sym": sym, "natural": natural, "k1": k1, "k2": k2})
 
 
 def history_stream(ctx, tbl, n):
@@ -492,6 +513,7 @@ def history_stream(ctx, tbl, n):
         other = ctx.rng.choice([c for c in common if c != sym])
         k1, k2 = ctx.rng.choice([1, 2, 3]), ctx.rng.choice([1, 2, 5])
         steps = history_steps(sym, other, natural, k1, k2)
+        element_ops(ctx, sym, natural, k1, k2)
         plans.append((sym, other, natural, k1, k2, steps))
     res = ctx.driver.ask_many([{"k": "ops", "ops": [st[1] for st in pl[5]]} for pl in plans])
     for (sym, other, natural, k1, k2, steps), r in zip(plans, res):
